@@ -5,6 +5,7 @@
 -/
 import FB.Wire
 import FB.Codec
+import FB.CreatedFiles
 import FB.Conc
 open FB FB.Wire
 open Lean (Json)
@@ -238,6 +239,42 @@ def runCodec (j : Lean.Json) : Except String Lean.Json := do
       pure (Json.mkObj [("ok", showJson (FB.Codec.encodeOp op)), ("files", .arr files.toArray), ("nsubs", .num (.fromNat nsubs))])
   return Json.mkObj [("outs", .arr outs.toArray)]
 
+def showCF (c : FB.CreatedFiles.CF) : Lean.Json :=
+  Json.mkObj [("files", .arr (c.files.map fun p => .str (showPath p)).toArray),
+    ("dirs", .arr (c.dirs.map fun p => .str (showPath p)).toArray),
+    ("subfiles", .arr (c.subfiles.map fun (d, ns) => Lean.Json.arr #[.str (showPath d), .arr (ns.map .str).toArray]).toArray),
+    ("count", .arr (c.count.map fun (d, n) => Lean.Json.arr #[.str (showPath d), .num (.fromNat n)]).toArray)]
+
+/-- the `CreatedFiles` data structure (`FB.CreatedFiles`): run a command sequence, print every state -/
+def runCF (j : Lean.Json) : Except String Lean.Json := do
+  let cmds ← (← j.getObjVal? "cmds").getArr?
+  let mut c : Option FB.CreatedFiles.CF := some {}
+  let mut outs : Array Lean.Json := #[]
+  for cmd in cmds do
+    let a ← cmd.getArr?
+    let k ← (a[0]?.getD Lean.Json.null).getStr?
+    let p := parsePath (← (a[1]?.getD Lean.Json.null).getStr?)
+    match c with
+    | none => outs := outs.push (.str "dead")
+    | some st =>
+      let next ← match k with
+        | "s" => pure (FB.CreatedFiles.step st (.started p))
+        | "f" => pure (FB.CreatedFiles.step st (.finished p))
+        | "e" => pure (FB.CreatedFiles.step st (.error p))
+        | x => throw s!"bad cf command {x}"
+      match next with
+      | none => outs := outs.push (.str "KeyError"); c := none
+      | some st' =>
+        let q ← match a[2]? with
+          | some qp => do
+            let qq := parsePath (← qp.getStr?)
+            pure (Json.mkObj [("hasFile", .bool (FB.CreatedFiles.hasFile st' qq)), ("hasDir", .bool (FB.CreatedFiles.hasDir st' qq)),
+              ("listDir", .arr ((FB.CreatedFiles.listDir st' qq).map .str).toArray)])
+          | none => pure .null
+        outs := outs.push (Json.mkObj [("state", showCF st'), ("query", q)])
+        c := some st'
+  return Json.mkObj [("outs", .arr outs)]
+
 def handle (line : String) : Lean.Json :=
   match Lean.Json.parse line with
   | .error e => Json.mkObj [("bad-op", .str e)]
@@ -249,6 +286,7 @@ def handle (line : String) : Lean.Json :=
       | "json" => runJsonUnit j
       | "conc" => runConc j
       | "codec" => runCodec j
+      | "cf" => runCF j
       | k => throw s!"unknown kind {k}"
     match r with
     | .ok out => out.setObjVal! "id" id
